@@ -10,9 +10,9 @@ from ..tlc import Raw
 INVS = ["MachineRefinesIdeal", "NeverCrashes", "OrderAndRepetitionIrrelevant", "SelfLoopIsSourceAndTarget", "TypeOK", "EmitCase"]
 
 
-def cfg(chk, name, ts="TS3", maxlen=3, maxpairs=1, known=(), emit=False, invariants=INVS, constraints=()):
+def cfg(chk, name, ts="TS3", maxlen=3, maxpairs=1, known=(), emit=False, invariants=INVS, constraints=(), cl=False):
     return tlc.write_cfg(os.path.join(chk.work, name + ".cfg"),
-                         constants=dict(TableSeq="<- " + ts, MaxLen=maxlen, MaxPairs=maxpairs, Known=set(known), Emit=emit),
+                         constants=dict(TableSeq="<- " + ts, MaxLen=maxlen, MaxPairs=maxpairs, Known=set(known), Emit=emit, ColumnLess=cl),
                          invariants=list(invariants), constraints=list(constraints))
 
 
@@ -103,6 +103,9 @@ def run(chk):
     if r.violated:
         raise core.MachineryError("Script.tla intended mechanism violates %s" % r.violated)
     chk.require_actions(["Fold"])
+    r = chk.tlc("MC_Script", cfg(chk, "mc3", maxlen=2 if quick else 3, cl=True), "O1 with column-less statements", workers=16, timeout=3000)
+    if r.violated:
+        raise core.MachineryError("Script.tla intended mechanism violates %s" % r.violated)
     r = chk.tlc("MC_Script", cfg(chk, "mc2", maxlen=2 if quick else 3, maxpairs=2), "O1 two-pair renames", workers=16, timeout=3000)
     if r.violated:
         raise core.MachineryError("Script.tla intended mechanism violates %s" % r.violated)
@@ -116,12 +119,16 @@ def run(chk):
     gens += r.cases("CASE")
     r = chk.tlc("MC_Script", cfg(chk, "gen2", maxlen=2 if quick else 3, maxpairs=2, emit=True), "generate: two-pair renames", workers=1,
                 coverage=False, timeout=3000)
-    seen = set()
     for c in r.cases("CASE"):
         if any(len(s["pairs"]) > 1 for s in c["h"]):
             gens.append(c)
+    r = chk.tlc("MC_Script", cfg(chk, "gen3", maxlen=2 if quick else 3, cl=True, emit=True), "generate: with column-less statements", workers=1,
+                coverage=False, timeout=3000)
+    for c in r.cases("CASE"):
+        if any(s["cl"] for s in c["h"]):
+            gens.append(c)
     n_exh = len(gens)
-    sim = chk.tlc("MC_Script", cfg(chk, "gensim", ts="TS5", maxlen=9, emit=True, invariants=["MachineRefinesIdeal", "EmitCase"]),
+    sim = chk.tlc("MC_Script", cfg(chk, "gensim", ts="TS5", maxlen=9, emit=True, cl=True, invariants=["MachineRefinesIdeal", "EmitCase"]),
                   "generate: simulated longer histories over 5 tables", workers=1, coverage=False,
                   simulate="num=%d" % (400 if quick else 8000), depth=10, seed=chk.seed, timeout=3000)
     longs = [c for c in sim.cases("CASE") if len(c["h"]) >= 5]
